@@ -9,8 +9,10 @@
         the lock of the final drain, exit), stop() = store + join; a label picks who moves, so `reach`
         ranges over ALL schedules, including every placement of stop() relative to the back-end's phases
         and every time at which the timed wait returns.
-   The shape facts (is there a drain after the loop; `>` of the fit test, of the roll guard; the literals
-   25 / 2 / 2) are regenerated from the current /repo into Gen_C16.v on every run; the model follows
+   The shape facts (is there a drain after the loop; `>` of the fit test in AsyncLogging::append AND of the
+   copy test in FixedBuffer::append - the theorems need the two sites to agree: `sites_agree` -; `>` of the
+   roll guard; the literals 25 / 2 / 2; the default flush interval / checkEveryN; the shape of
+   AppendFile::append's retry loop) are regenerated from the current /repo into Gen_C16.v on every run; the model follows
    them, the theorems name them as premises, and the last theorems discharge the premises for the
    current tree by computation - so a change of the source that invalidates a premise breaks exactly
    those theorems. *)
@@ -33,6 +35,20 @@ Theorem C16_appendfile_whole_record : forall (A : Type) (env : list wres) (data 
   end.
 Proof. exact af_loop_spec. Qed.
 Print Assumptions C16_appendfile_whole_record.
+
+(* the retry loop in detail: `written` (what writtenBytes_ grows by) never exceeds what the stream accepted,
+   the accepted bytes are a prefix of the record, and without error written = accepted; short results
+   without ferror - zero-byte results included - are retried until the record is complete *)
+Theorem C16_appendfile_retry_loop : forall (A : Type),
+  (forall (env : list wres) (data : list A),
+     match af_loop env data with
+     | (acc, w, er) => (w <= length acc)%nat /\ (length acc <= length data)%nat /\
+                       acc = firstn (length acc) data /\ (er = false -> w = length acc)
+     end) /\
+  (forall (env : list wres) (data : list A),
+     Forall (fun x : wres => snd x = false) env -> af_loop env data = (data, length data, false)).
+Proof. exact (fun A => conj (af_loop_written A) (af_loop_retries A)). Qed.
+Print Assumptions C16_appendfile_retry_loop.
 
 (* for all roll sizes, flush intervals, check periods, clocks (any time() results, also going backwards),
    short-write patterns and op sequences: every file is the concatenation of a group of WHOLE chunks (a
@@ -67,6 +83,81 @@ Theorem C16_roll_at_most_once_per_second : forall (A : Type),
 Proof. exact (fun A H => conj (names_increasing A H) (roll_guard A H)). Qed.
 Print Assumptions C16_roll_at_most_once_per_second.
 
+(* LogFile's bookkeeping, all configurations / clocks / op lists: startOfPeriod_ is the period of the creation
+   second, count_ stays below checkEveryN, the current file is named by lastRoll_, writtenBytes_ never
+   exceeds the size of the current file and equals it when no stream error occurred *)
+Theorem C16_logfile_bookkeeping : forall (A : Type) (c : cfg) (now : Z) (ops : list (sop_t A)),
+  0 < now ->
+  let s := lf_run c (lf_new now) ops in
+  sop s = period (lastRoll s) /\
+  0 <= cnt s < Z.max 1 (checkEveryN c) /\
+  (exists d older, files s = (lastRoll s, d) :: older /\ 0 <= wb s <= Z.of_nat (length d) /\
+     (forallb (fun o => negb (op_error o)) ops = true -> wb s = Z.of_nat (length d))).
+Proof. exact logfile_bookkeeping. Qed.
+Print Assumptions C16_logfile_bookkeeping.
+
+(* LogFile::append_unlocked, exhaustively: size roll (first clock value, count_ untouched) / not a check
+   point (only count_ moves) / check point in another period: day-boundary roll on the second clock value /
+   check point, flush interval exceeded: flush and lastFlush_ = now / check point, nothing to do *)
+Theorem C16_logfile_append_cases : forall (A : Type) (c : cfg) (d : list A) (env : list wres) (now now2 : Z) (s : lf A),
+  let '(acc, w, er) := af_loop env d in
+  let s1 := put acc w s in
+  let s' := fst (lf_append c d env now now2 s) in
+  snd (lf_append c d env now now2 s) = er /\
+  ( (rollSize c < wb s1 /\ s' = fst (roll now s1))
+    \/ (wb s1 <= rollSize c /\ cnt s1 + 1 < checkEveryN c /\ s' = set_cnt (cnt s1 + 1) s1)
+    \/ (wb s1 <= rollSize c /\ checkEveryN c <= cnt s1 + 1 /\ period now <> sop s1 /\
+          s' = fst (roll now2 (set_cnt 0 s1)))
+    \/ (wb s1 <= rollSize c /\ checkEveryN c <= cnt s1 + 1 /\ period now = sop s1 /\
+          flushInterval c < now - lastFlush s1 /\ s' = do_flush (set_lastFlush now (set_cnt 0 s1)) /\
+          nflush s' = S (nflush s) /\ lastFlush s' = now)
+    \/ (wb s1 <= rollSize c /\ checkEveryN c <= cnt s1 + 1 /\ period now = sop s1 /\
+          now - lastFlush s1 <= flushInterval c /\ s' = set_cnt 0 s1 /\ nflush s' = nflush s) ).
+Proof. exact lf_append_cases. Qed.
+Print Assumptions C16_logfile_append_cases.
+
+(* the flush interval as a guarantee: right after a check point that did not roll, the last flush (or the
+   creation of the file) is at most flushInterval seconds older than the clock value just read *)
+Theorem C16_flush_interval : forall (A : Type) (c : cfg) (d : list A) (env : list wres) (now now2 : Z) (s : lf A),
+  0 <= flushInterval c ->
+  let '(acc, w, _) := af_loop env d in
+  let s1 := put acc w s in
+  let s' := fst (lf_append c d env now now2 s) in
+  wb s1 <= rollSize c -> checkEveryN c <= cnt s1 + 1 -> period now = sop s1 ->
+  now - lastFlush s' <= flushInterval c.
+Proof. exact flush_interval_kept. Qed.
+Print Assumptions C16_flush_interval.
+
+(* the day boundary: a check point whose clock lies in another period (kRollPerSeconds_) than the file's,
+   with the second clock value past the last creation second, starts a new file named by that second whose
+   startOfPeriod_ is its period; the record just appended stays in the old file *)
+Theorem C16_day_boundary_roll : forall (A : Type) (c : cfg) (d : list A) (env : list wres) (now now2 : Z) (s : lf A),
+  LogFile_roll_guard_is_gt = true ->
+  let '(acc, w, _) := af_loop env d in
+  let s1 := put acc w s in
+  let s' := fst (lf_append c d env now now2 s) in
+  wb s1 <= rollSize c -> checkEveryN c <= cnt s1 + 1 -> period now <> sop s1 -> lastRoll s < now2 ->
+  files s' = (now2, []) :: files s1 /\ sop s' = period now2 /\ lastRoll s' = now2 /\ lastFlush s' = now2 /\
+  cnt s' = 0 /\ wb s' = 0.
+Proof. exact day_boundary_roll. Qed.
+Print Assumptions C16_day_boundary_roll.
+
+(* LogFile::getLogFileName = basename ++ stamp(now) ++ hostname ++ ".<pid>.log".  Environment contract (visible
+   premises): the time stamp has a fixed width and grows lexicographically with the second on [lo, hi) - what
+   strftime(".%Y%m%d-%H%M%S.") over gmtime_r does for four-digit years.  Then, in one process, the file names
+   grow strictly in creation order: sorting the directory by name is the creation order, no name repeats *)
+Theorem C16_file_names_increase :
+  forall (X : Type) (ltX : X -> X -> Prop) (A : Type) (stamp : Z -> list X) (w : nat) (lo hi : Z)
+         (base host pidlog : list X) (c : cfg) (now : Z) (ops : list (sop_t A)),
+  LogFile_roll_guard_is_gt = true ->
+  (forall t, length (stamp t) = w) ->
+  (forall a b, lo <= a -> a < b -> b < hi -> lex_lt X ltX (stamp a) (stamp b)) ->
+  let fs := files_in_order (lf_run c (@lf_new A now) ops) in
+  Forall (fun f => lo <= fst f < hi) fs ->
+  StronglySorted (lex_lt X ltX) (map (fun f => fname X stamp base host pidlog (fst f)) fs).
+Proof. exact file_names_increase. Qed.
+Print Assumptions C16_file_names_increase.
+
 (* ------------------------------------------------------------------ (ii) AsyncLogging *)
 
 (* for all thread counts, programs, record sizes below the buffer size, schedules: in every reachable
@@ -82,7 +173,7 @@ Print Assumptions C16_roll_at_most_once_per_second.
      batches in order: the append order minus the buffers erased by the valve *)
 Theorem C16_async_exactly_once_in_order :
   forall (R : Type) (rlen : R -> Z) (P : params),
-  params_ok P = true -> p_fit_gt P = true ->
+  params_ok P = true -> sites_agree P = true ->
   forall (progs0 : list (list R)) (s : ast R),
   Forall (Forall (fun r => rlen r < p_cap P)) progs0 ->
   reach R rlen P (init progs0) s ->
@@ -101,7 +192,7 @@ Print Assumptions C16_async_exactly_once_in_order.
    sequence; if the appended records are pairwise distinct none appears twice in the file *)
 Theorem C16_async_at_most_once :
   forall (R : Type) (rlen : R -> Z) (P : params),
-  params_ok P = true -> p_fit_gt P = true ->
+  params_ok P = true -> sites_agree P = true ->
   forall (progs0 : list (list R)) (s : ast R),
   Forall (Forall (fun r => rlen r < p_cap P)) progs0 ->
   reach R rlen P (init progs0) s ->
@@ -117,7 +208,7 @@ Print Assumptions C16_async_at_most_once.
    a batch within the threshold is written entirely *)
 Theorem C16_drop_only_announced :
   forall (R : Type) (rlen : R -> Z) (P : params),
-  params_ok P = true -> p_fit_gt P = true ->
+  params_ok P = true -> sites_agree P = true ->
   (forall (progs0 : list (list R)) (s : ast R),
      Forall (Forall (fun r => rlen r < p_cap P)) progs0 ->
      reach R rlen P (init progs0) s ->
@@ -141,17 +232,19 @@ Proof.
 Qed.
 Print Assumptions C16_drop_only_announced.
 
-(* no buffer ever holds kLargeBuffer bytes or more (so FixedBuffer::append never silently discards), the
+(* no buffer ever holds more than kLargeBuffer bytes (strictly less with the strict fit test), the
    recycling asserts of threadFunc hold (fault = false; newBuffer1/newBuffer2 present at every loop head
    and at the final lock), an iteration of the loop writes at most p_thr buffers, and nextBuffer_ is
    missing only while a full buffer is queued *)
 Theorem C16_buffers_bounded :
   forall (R : Type) (rlen : R -> Z) (P : params),
-  params_ok P = true -> p_fit_gt P = true ->
+  params_ok P = true -> sites_agree P = true ->
   forall (progs0 : list (list R)) (s : ast R),
   Forall (Forall (fun r => rlen r < p_cap P)) progs0 ->
   reach R rlen P (init progs0) s ->
-  fault (be s) = false /\ blen (cur (sh s)) < p_cap P /\ Forall (fun b => blen b < p_cap P) (bufs (sh s)) /\
+  fault (be s) = false /\
+  (blen (cur (sh s)) <= p_cap P /\ (p_fit_gt P = true -> blen (cur (sh s)) < p_cap P)) /\
+  Forall (fun b => blen b <= p_cap P /\ (p_fit_gt P = true -> blen b < p_cap P)) (bufs (sh s)) /\
   (nxt (sh s) = false -> bufs (sh s) <> [] \/ pc_final (pc (be s)) = true) /\
   match pc (be s) with
   | PStart | PLock | PWait | PFinalLock => nb1 (be s) = true /\ nb2 (be s) = true
@@ -166,7 +259,7 @@ Print Assumptions C16_buffers_bounded.
    (written, minus announced drops), the final batch written entirely, and the last event is a flush *)
 Theorem C16_stop_flushes :
   forall (R : Type) (rlen : R -> Z) (P : params),
-  params_ok P = true -> p_fit_gt P = true ->
+  params_ok P = true -> sites_agree P = true ->
   forall (progs0 : list (list R)) (s : ast R),
   p_drain P = true ->
   Forall (Forall (fun r => rlen r < p_cap P)) progs0 ->
@@ -183,6 +276,60 @@ Theorem C16_stop_flushes_refuted :
     joined (gh s) = true /\ ~ stop_flushed nat s.
 Proof. exact stop_flushes_refuted. Qed.
 Print Assumptions C16_stop_flushes_refuted.
+
+(* stop() terminates: once running_ is false (stop() stores it: first clause), in EVERY continuation - any
+   interleaving of further appends, back-end steps, the join - running_ stays false, the number of back-end
+   steps is bounded by stop_rank (the work left) plus the number of appends (each adds at most one buffer),
+   and the back-end is never blocked before its exit; left alone it reaches PDone within stop_rank steps
+   without touching the history; at PDone the join returns *)
+Theorem C16_stop_terminates : forall (R : Type) (rlen : R -> Z) (P : params),
+  (forall s s' : ast R, step R rlen P s LStop = Some s' -> running (sh s') = false) /\
+  (forall s : ast R, running (sh s) = false ->
+     (forall ls s', run R rlen P s ls = Some s' ->
+        running (sh s') = false /\
+        (count_back ls + stop_rank s' <= stop_rank s + count_app ls)%nat /\
+        (pc (be s') <> PDone -> exists s'', step R rlen P s' LBack = Some s'')) /\
+     (exists k s', (k <= stop_rank s)%nat /\ run R rlen P s (repeat LBack k) = Some s' /\ pc (be s') = PDone /\
+        hist (gh s') = hist (gh s) /\ mark (gh s') = mark (gh s))) /\
+  (forall s : ast R, pc (be s) = PDone -> mark (gh s) <> None -> joined (gh s) = false ->
+     exists s', step R rlen P s LJoin = Some s' /\ joined (gh s') = true /\ sh s' = sh s /\ out (gh s') = out (gh s)).
+Proof.
+  exact (fun R rlen P => conj (stop_sets R rlen P) (conj (stop_terminates R rlen P) (join_returns R rlen P))).
+Qed.
+Print Assumptions C16_stop_terminates.
+
+(* ONE theorem from append to the files, composing the AsyncLogging model with the LogFile model: stop() has
+   returned (drain after the loop) and the events the back-end produced were performed as LogFile operations
+   (a buffer = one append of its bytes; the announcement = one append of some line) without a stream error,
+   with ANY clock, roll size, flush interval, check period and short-write pattern.  Then
+   - every record appended before the call is among the records the back-end took:
+     taken = firstn m hist ++ rest  (m = |hist| at the call; rest = appended while stop() was in progress);
+   - the files concatenated in creation order are, batch by batch, the bytes of the taken buffers minus the
+     announced drops (stream_ok: a batch over the threshold contributes ONE announcement line and its first
+     p_keep buffers; every other batch and the final batch all their bytes), and the erased buffers are
+     exactly flat_map dropped_of batches;
+   - every file consists of whole appends (no buffer, hence no record, is split across two files);
+   - if nothing was dropped, the files are exactly the bytes of firstn m hist ++ rest *)
+Theorem C16_stop_end_to_end :
+  forall (R A : Type) (bytes : R -> list A) (rlen : R -> Z) (P : params),
+  params_ok P = true -> sites_agree P = true ->
+  forall (progs0 : list (list R)) (s : ast R) (c : cfg) (now : Z) (ops : list (sop_t A)) (chs : list (list A)),
+  p_drain P = true ->
+  Forall (Forall (fun r => rlen r < p_cap P)) progs0 ->
+  reach R rlen P (init progs0) s -> joined (gh s) = true ->
+  0 < now -> evs_ops R A bytes (out (gh s)) ops chs ->
+  forallb (fun o => negb (op_error o)) ops = true ->
+  let files := files_in_order (lf_run c (lf_new now) ops) in
+  exists m rest,
+    mark (gh s) = Some m /\ (m <= length (hist (gh s)))%nat /\
+    taken (gh s) = firstn m (hist (gh s)) ++ rest /\
+    stream_ok R A bytes P (batches (gh s)) (fbatch (gh s)) (concat (map snd files)) /\
+    dropped (gh s) = flat_map (dropped_of R P) (batches (gh s)) /\
+    (exists groups : list (list (list A)),
+       Forall2 (fun f g => snd f = concat g) files groups /\ concat groups = flat_map (@op_record A) ops) /\
+    (dropped (gh s) = [] -> concat (map snd files) = concat (map bytes (firstn m (hist (gh s)) ++ rest))).
+Proof. exact stop_end_to_end. Qed.
+Print Assumptions C16_stop_end_to_end.
 
 (* AsyncLogging on top of LogFile: if the events the back-end produced are performed as LogFile
    operations (a buffer = one append of its bytes), with any clock, roll size, short-write pattern, and
@@ -203,10 +350,16 @@ Print Assumptions C16_async_files.
 (* ------------------------------------------------------------------ the current tree *)
 (* the premises hold of the constants regenerated from the current sources (closed computations) *)
 Theorem C16_current_facts :
-  params_ok current_params = true /\ p_fit_gt current_params = true /\ LogFile_roll_guard_is_gt = true /\
+  params_ok current_params = true /\ sites_agree current_params = true /\
+  (p_fit_gt current_params = true /\ p_copy_gt current_params = true) /\
+  LogFile_roll_guard_is_gt = true /\ AppendFile_append_loop_ok = true /\
   p_cap current_params = LogStream_kLargeBuffer /\
-  (forall n, n <= LogStream_kSmallBuffer -> n < p_cap current_params).
-Proof. exact (conj eq_refl (conj eq_refl (conj eq_refl (conj eq_refl (small_lines eq_refl))))). Qed.
+  (forall n, n <= LogStream_kSmallBuffer -> n < p_cap current_params) /\
+  (0 <= flushInterval (default_cfg 0) /\ 1 <= checkEveryN (default_cfg 0) /\ 0 < LogFile_kRollPerSeconds).
+Proof.
+  split; [reflexivity|]. split; [reflexivity|]. split; [split; reflexivity|]. split; [reflexivity|].
+  split; [reflexivity|]. split; [reflexivity|]. split; [exact (small_lines eq_refl)|exact (default_cfg_sane eq_refl)].
+Qed.
 Print Assumptions C16_current_facts.
 
 (* the shape the CURRENT sources have (generated fact AsyncLogging_drain_after_loop): proved for all
@@ -280,7 +433,7 @@ Proof. vm_compute. repeat split; reflexivity. Qed.
 
 (* the valve: a small shape (capacity 10, threshold 3, keep 2): three threads, five buffers queued while
    the back-end waits; the batch of 5 > 3 is announced, buffers 3..5 are erased, 1..2 written *)
-Definition ex_P : params := mkParams true true 10 3 2 2.
+Definition ex_P : params := mkParams true true true 10 3 2 2.
 Definition ex_valve_progs : list (list nat) := [[11; 12]; [21; 22]; [31]]%nat.
 Definition ex_valve_sched : list label :=
   [LBack; LBack; LApp 0; LApp 1; LApp 2; LApp 0; LApp 1; LBack; LBack; LBack; LBack; LBack; LBack;
@@ -299,3 +452,37 @@ Example C16_valve_nonvacuous :
   | None => False
   end.
 Proof. vm_compute. repeat split; reflexivity. Qed.
+
+(* end to end: the run of C16_stop_flushes_nonvacuous, its four events performed on a LogFile with the
+   default configuration (a record r is the one byte r): the hypotheses of C16_stop_end_to_end are inhabited
+   and the file holds both records in order *)
+Definition e2e_ops : list (sop_t nat) := [SAppend [1]%nat [] 1000 1000; SFlush; SAppend [2]%nat [] 1001 1001; SFlush].
+Definition e2e_chs : list (list nat) := [[1]; []; [2]; []]%nat.
+Example C16_end_to_end_nonvacuous :
+  match run nat f8_rlen (with_drain true current_params) (init f8_progs) f8_sched_drain with
+  | Some s => joined (gh s) = true /\ dropped (gh s) = [] /\
+              evs_ops nat nat (fun r => [r]) (out (gh s)) e2e_ops e2e_chs /\
+              forallb (fun o => negb (op_error o)) e2e_ops = true /\
+              files_in_order (lf_run (default_cfg 1000000) (lf_new 1000) e2e_ops) = [(1000, [1; 2]%nat)]
+  | None => False
+  end.
+Proof.
+  vm_compute. split; [reflexivity|]. split; [reflexivity|]. split; [|split; reflexivity].
+  apply (eos_cons nat nat (fun r => [r]) _ [SAppend [1%nat] [] 1000 1000]); [constructor|].
+  apply (eos_cons nat nat (fun r => [r]) _ [SFlush]); [constructor|].
+  apply (eos_cons nat nat (fun r => [r]) _ [SAppend [2%nat] [] 1001 1001]); [constructor|].
+  apply (eos_cons nat nat (fun r => [r]) _ [SFlush]); [constructor|]. apply eos_nil.
+Qed.
+
+(* termination: from the state right after stop() in the F-8 schedule the rank is 6; the back-end, left alone,
+   is at its exit after 5 steps, and the join returns *)
+Example C16_stop_terminates_nonvacuous :
+  match run nat f8_rlen (with_drain true current_params) (init f8_progs) (firstn 6 f8_sched_drain) with
+  | Some s => running (sh s) = false /\ stop_rank s = 6%nat /\
+              match run nat f8_rlen (with_drain true current_params) s (repeat LBack 5) with
+              | Some s' => pc (be s') = PDone /\ stop_rank s' = 0%nat /\
+                           step nat f8_rlen (with_drain true current_params) s' LJoin <> None
+              | None => False end
+  | None => False
+  end.
+Proof. vm_compute. repeat split; try reflexivity. discriminate. Qed.
